@@ -224,6 +224,23 @@ pub fn gen_scenario(seed: u64, large: u8) -> Scenario {
     let mut rng = Rng::stream(seed, "c20-scenario");
     loop {
         let op = &ops::OPS[rng.below(ops::OPS.len())];
+        // phase 3 ("huge"): the (near-)linear operations on 10 000 - 100 000 members / points /
+        // vertices, far above any plausible "go parallel" threshold
+        const HUGE_OPS: &[&str] = &["aggregates", "geodesic_aggregates", "par_iter_multipolygon", "par_iter_multipoint_mls", "convex_hull", "quick_and_graham_hull",
+            "simplify", "simplify_vw", "densify_segmentize", "traversals", "transforms", "extremes", "minimum_rotated_rect", "outliers", "unary_union", "earcut_triangles"];
+        if large == 3 {
+            if !HUGE_OPS.contains(&op.name) {
+                continue;
+            }
+            let fams: Vec<&str> = ["mantissa", "cloud", "circles"].into_iter().filter(|f| ops::compatible(op, f)).collect();
+            if fams.is_empty() {
+                continue;
+            }
+            let fam = *rng.pick(&fams);
+            let size = *rng.pick(&[10_000usize, 20_000, 50_000, 100_000]);
+            let size = if op.name == "unary_union" || op.name == "outliers" || op.name == "par_iter_multipolygon" { size.min(20_000) } else { size };
+            return Scenario { op: op.name.to_string(), input: InputSpec { family: fam.to_string(), size, seed: rng.next_u64() }, knobs: Knobs { strategy: 0, par_sort_min_size: 32768 } };
+        }
         if large > 0 && !op.large_ok {
             continue;
         }
@@ -707,7 +724,11 @@ pub fn run(a: &Args) -> i32 {
     let trace = a.extra.contains_key("trace");
     let eventlog = a.extra.contains_key("eventlog");
     let mut events = String::new();
-    let stream = if large > 0 { "C20-large" } else { "C20" };
+    let stream = match large {
+        0 => "C20",
+        3 => "C20-huge",
+        _ => "C20-large",
+    };
     let mut tot = Tot::default();
     let mut hashes: Vec<u64> = Vec::new();
     let mut loghashes: Vec<u64> = Vec::new();
